@@ -1,5 +1,7 @@
 # C09 - schema datatypes: lexical / value space / canonical forms
 CLAIMS = {
+ 'decimal': 'XMLBigDecimal::parseDecimal (both overloads) on every string of <= N units: accepted iff xs:decimal lexical space after trimming, exact sign / digit string / totalDigits / fractDigits, memory safe',
+ 'wsfacet': 'XMLString::replaceWS/collapseWS/removeWS/isWSReplaced/isWSCollapsed on every string of <= N units: exact whiteSpace-facet normalisation, predicates exact on fixed points, idempotent, memory safe',
  'dt_normalize': 'XMLDateTime::normalize for every valid timezoned instant: fields equal the loop-free reference (same instant in UTC), in range, marked UTC',
  'hexbin': 'HexBin::isArrayByteHex/getDataLength/decodeToXMLByte/getCanonicalRepresentation on every string of <= N units: accepted iff XSD lexical space, exact decode, canonical = upper case, idempotent, memory safe',
  'base64': 'Base64::decodeToXMLByte/getDataLength/getCanonicalRepresentation/encode (Conf_Schema) on every string of <= N units: accepted iff XSD E2-54 grammar, exact decode, encode(decode) canonical, memory safe',
@@ -13,6 +15,10 @@ HARNESSES = [
       defs={'quick': {'N': 4}, 'thorough': {'N': 6}}, unwind='N+3'),
  dict(name='base64', entry='harness_base64', srcs=['C09/base64.cpp'], tus=['util/Base64.cpp'] + COMMON, const_tables=[T10, T11],
       defs={'quick': {'N': 5}, 'thorough': {'N': 8}}, unwind='N+3'),
+ dict(name='decimal', entry='harness_decimal', srcs=['C09/decimal.cpp'], tus=['util/XMLBigDecimal.cpp'] + COMMON, const_tables=[T10],
+      defs={'quick': {'N': 4}, 'thorough': {'N': 6}}, unwind='N+3', unwind_gentle=True, unwind_cap=40, timeout={'quick': 900, 'thorough': 2400}, mem_gb=16),
+ dict(name='wsfacet', entry='harness_wsfacet', srcs=['C09/wsfacet.cpp'], tus=['util/XMLString.cpp'],
+      defs={'quick': {'N': 5}, 'thorough': {'N': 7}}, unwind='N+3', unwind_gentle=True, unwind_cap=40, timeout={'quick': 900, 'thorough': 2400}),
  dict(name='dt_normalize', entry='harness_dt_normalize', srcs=['C09/datetime.cpp'], tus=['util/XMLDateTime.cpp'], unwind=4, timeout={'quick': 600, 'thorough': 1700}),
 ]
 LEVEL_TEXT = ('Bounded model checking of the real datatype kernels against references written from XML Schema Part 2: for ALL strings up to the stated length '
